@@ -12,7 +12,7 @@ from ..world import build
 
 PROP = 'C01'
 LEVEL = 'exploration'
-N = {'quick': 80000, 'thorough': 3000000}
+N = {'quick': 55000, 'thorough': 3000000}
 RULE = ('worlds drawn from the seeded spec generator (1-6 segments, rarely 100+; 0-5 channels over the 17 '
         'readable types; contiguous/interleaved; 0-4 chunks; header inheritance choices; properties; '
         'both byte orders), encoded by the independent stub and read with TdmsFile.read through a seeded '
